@@ -40,9 +40,10 @@ def build_op(terms, rng, force_complex_type=False):
     op = QubitOperator()
     for w, re, im in terms:
         if im != 0 or force_complex_type:
-            c = complex(float(re), float(im))
+            # every complex scalar type the operator classes accept (the values are multiples of 1/8: exact in single precision)
+            c = rng.choice([complex, complex, np.complex128, np.complex64])(complex(float(re), float(im)))
         else:
-            c = rng.choice([float(re), np.float64(float(re)), int(re) if re.denominator == 1 else float(re)])
+            c = rng.choice([float(re), np.float64(float(re)), np.float32(float(re)), int(re) if re.denominator == 1 else float(re)])
         op += QubitOperator(tuple((q, p) for q, p in w), c)
     return op
 
@@ -105,11 +106,12 @@ def one_case(ctx, specs, n, init, meas, terms, seed):
         if abs(val - exact) > 1e-7:
             ctx.violation(f"route {tag} returned {val:.10g}, <psi|H|psi> = {exact:.10g}", case)
             return False
-    # variance / standard error on exact frequencies (n_shots=None): sum c^2 (1 - E_P^2) per term with real coefficients
-    if not is_complex:
+    # variance / standard error on exact frequencies (n_shots=None): sum |c|^2 (1 - E_P^2) per term (a complex operator is
+    # measured as its real and its imaginary part)
+    if True:
         vt = [cyc_to_complex(z).real for z in j["exp"]["variance_terms"]]
         et = [cyc_to_complex(z).real / p for z in j["exp"]["expect_terms"]]
-        ref_var = sum(float(re) ** 2 * (1 - e * e) for (w, re, im), e in zip(terms, et))
+        ref_var = sum((float(re) ** 2 + float(im) ** 2) * (1 - e * e) for (w, re, im), e in zip(terms, et))
         try:
             var = float(sim.get_variance(op, circ, initial_statevector=init_np, desired_meas_result=desired))
             se = float(sim.get_standard_error(op, circ, initial_statevector=init_np, desired_meas_result=desired))
